@@ -106,10 +106,7 @@ Theorem C17_css_properties_text :
     | Some ((a, b, ba, bb), (body, g3)) =>
         Some (mkCS a b ba bb (Some (props_spec (render_items body ++ render_gap g3) ba (lay_items 0 body) None)))
     end.
-Proof.
-  intros sh pos H. rewrite (css_section_text sh pos true H).
-  destruct (section_items pos 0 (sh_items sh)) as [[[[[a b] ba] bb] [body g3]]|]; reflexivity.
-Qed.
+Proof. exact css_properties_text. Qed.
 Print Assumptions C17_css_properties_text.
 
 (* the rule found is the one the Level A spec names on the layout tree of the sheet *)
